@@ -27,7 +27,7 @@ ANCHORS = [
     "acnportal.acnsim.network.charging_network:ChargingNetwork.update_pilots",
 ]
 REQUIRED = ["runs_judged", "schedules_submitted", "empty_schedules", "schedules_beyond_horizon", "schedule_in_last_period_beyond_horizon",
-            "set_pilot_calls_checked", "held_pilots_checked", "runs_with_negative_pilots_cancelling_across_stations", "runs_with_one_mapping_object_overwritten_in_place", "twin_runs", "malformed_unknown_station_rejected", "malformed_unequal_rejected", "resumed_after_rejection",
+            "set_pilot_calls_checked", "held_pilots_checked", "runs_with_negative_pilots_cancelling_across_stations", "feasibility_queries_on_candidates_before_submitting", "runs_with_one_mapping_object_overwritten_in_place", "twin_runs", "malformed_unknown_station_rejected", "malformed_unequal_rejected", "resumed_after_rejection",
             "infeasible_schedule_warnings", "probe_ev_cells_checked", "regime:mr-None", "regime:mr-1", "regime:mr-k"]
 BUDGET_S = {"quick": 240, "thorough": 3000}
 
@@ -67,6 +67,8 @@ def cases(seed, tier):
                          max_len=rng.choice([1, 3, 5, 12]), p_empty=rng.choice([0.0, 0.15, 0.4]))
         if rng.random() < 0.15:
             d["scheduler"].update(mode="allrand", buffered=True, max_len=rng.choice([1, 1, 2, 3]), mr=rng.choice([1, 1, 2]))
+        if rng.random() < 0.3:
+            d["scheduler"]["probe_p"] = 0.6
         if rng.random() < 0.08:
             # bidirectional (V2G) stations: ranges extending below zero and schedules whose pilots cancel across stations
             for st_ in d["network"]["stations"]:
@@ -160,6 +162,8 @@ def run_case(case, obs):
     sim, evs, probe, sch, plog, box = _run(d, mal, True)
     if d.get("v2g"):
         obs.ev("runs_with_negative_pilots_cancelling_across_stations")
+    if getattr(sch, "probed", 0):
+        obs.ev("feasibility_queries_on_candidates_before_submitting", sch.probed)
     wit = dict(scenario=d, malform=mal)
     ids = list(sim.network.station_ids)
     subs = sch.submitted
